@@ -830,6 +830,9 @@ def evaluate_lang(tag, cases, obs, fixed_pos=True, contained=True):
             continue
         if c.get("tree") and not o.get("crash") and o.get("tree") != c["expect_tree"]:
             out.append((c["id"], 0))
+        if len(o.get("calls") or []) > 600:
+            c["oversize"] = True      # run-away loop with thousands of recorded calls: class compared by the driver only
+            continue
         ok_cases.append(c)
     shard = max(40, min(250, (len(ok_cases) + NCPU - 1) // NCPU))
     parts = [ok_cases[i:i + shard] for i in range(0, len(ok_cases), shard)]
@@ -1016,3 +1019,132 @@ class ExprGen:
 
     def inject(self):
         return [inj_val(n, tv) for n, tv in self.vars.items()] + [inj_func(f) for f in sorted(self.funcs)]
+
+
+# ---------------------------------------------------------------- random statement trees
+def mint(z):
+    return matom(const(kint(z)))
+
+
+def mvar(n):
+    return matom(var(n))
+
+
+class StmtGen:
+    """Random rule bodies: nested if / else-if / else, for, forRange, break, continue, return at any
+    depth, plain and compound assignments to locals and injected targets; a Mark(i) call after every
+    statement makes the executed path observable."""
+
+    def __init__(self, rng, wild=0.05):
+        self.rng = rng
+        self.wild = wild
+        self.mark = 0
+        self.locals = []
+        self.loopvar = 0
+
+    def inject(self):
+        return [inj_func("Mark"), inj_func("IdI64"),
+                inj_struct("h", fields={"I64": tv_int("i64", 5), "I8": tv_int("i8", 3), "U8": tv_int("u8", 200), "F64": tv_float("f64", 1.5)},
+                           sub={"N": tv_int("i64", 40)}, m={"k": 10, "j": 2}, sl=[4, 5, 6]),
+                inj_map("mp", "s", "i64", [(tv_str("a"), tv_int("i64", 1)), (tv_str("b"), tv_int("i64", 2)), (tv_str("c"), tv_int("i64", 3))]),
+                inj_seq("sq", "i32", [tv_int("i32", 7), tv_int("i32", 8), tv_int("i32", 9)]),
+                inj_val("c5", tv_int("i64", 5)), inj_val("tt", tv_bool(True)), inj_ptr("pc", tv_int("i32", 1))]
+
+    def mk(self):
+        self.mark += 1
+        return scall(call("func", "Mark", [("const", kint(self.mark))]))
+
+    def num(self, depth=1):
+        r = self.rng
+        if depth <= 0 or r.random() < 0.4:
+            x = r.random()
+            if x < 0.4 or not self.locals:
+                return mint(r.randint(-3, 9))
+            if x < 0.8:
+                return mvar(r.choice(self.locals))
+            return mvar(r.choice(["h.I64", "c5", "h.Sub.N", "h.I8"]))
+        return mk_mbin(r.choice("+-*"), self.num(depth - 1), self.num(depth - 1))
+
+    def cond(self):
+        r = self.rng
+        x = r.random()
+        if x < 0.1:
+            return emath(matom(const(kbool(r.random() < 0.5))))
+        if x < 0.15:
+            return emath(mvar("tt"))
+        if x < 0.15 + self.wild:
+            return emath(mint(5))                      # non-boolean condition
+        c = mk_ecmp(r.choice(list(COP)), emath(self.num(1)), emath(self.num(1)))
+        if r.random() < 0.2:
+            c = mk_elogic(r.choice(["&&", "||"]), c, mk_ecmp(r.choice(list(COP)), emath(self.num(0)), emath(self.num(0))))
+        if r.random() < 0.1:
+            c = paren_e(c, neg=True)
+        return c
+
+    def target(self):
+        r = self.rng
+        x = r.random()
+        if x < 0.6:
+            if self.locals and r.random() < 0.6:
+                return ("var", r.choice(self.locals))
+            n = "l%d" % r.randint(1, 4)
+            if n not in self.locals:
+                self.locals.append(n)
+            return ("var", n)
+        if x < 0.75:
+            return ("var", r.choice(["h.I64", "h.Sub.N", "h.I8", "h.U8", "h.PSub.N", "pc"]))
+        if x < 0.9:
+            return ("map", mapvar(r.choice(["mp", "h.M"]), ("str", r.choice(["a", "k", "new"]))))
+        return ("map", mapvar(r.choice(["sq", "h.SL"]), ("int", r.randint(0, 3))))
+
+    def assignment(self, compound_ok=True):
+        r = self.rng
+        defined = list(self.locals)
+        tg = self.target()
+        op = r.choice(["=", "=", ":=", "+=", "-=", "*=", "/="]) if compound_ok else "="
+        if op not in ("=", ":=") and tg[0] == "var" and tg[1] not in defined and "." not in tg[1] and tg[1] != "pc" and r.random() > self.wild:
+            op = "="
+        return assign(tg, op, ("math", self.num(1)))
+
+    def stmt(self, depth, in_loop):
+        r = self.rng
+        x = r.random()
+        if depth <= 0 or x < 0.35:
+            return self.assignment()
+        if x < 0.55:
+            elifs = [(self.cond(), self.blk(depth - 1, in_loop)) for _ in range(r.choice([0, 0, 1, 2]))]
+            el = self.blk(depth - 1, in_loop) if r.random() < 0.5 else None
+            return sif(self.cond(), self.blk(depth - 1, in_loop), elifs, el)
+        if x < 0.72:
+            self.loopvar += 1
+            iv = "i%d" % self.loopvar
+            k = r.choice([0, 1, 2, 3, 3, 4])
+            self.locals.append(iv)
+            return sfor(assign(("var", iv), "=", ("math", mint(0))), mk_ecmp("<", emath(mvar(iv)), emath(mint(k))),
+                        assign(("var", iv), "+=", ("math", mint(1))), self.blk(depth - 1, True))
+        if x < 0.82:
+            self.loopvar += 1
+            kv = "k%d" % self.loopvar
+            self.locals.append(kv)
+            return sforrange(kv, r.choice(["sq", "sq", "h.SL", "mp1"]) if r.random() < 0.9 else r.choice(["c5", "nope", "h"]), self.blk(depth - 1, True))
+        if x < 0.88 and (in_loop or r.random() < self.wild):
+            return sbreak()
+        if x < 0.94 and (in_loop or r.random() < self.wild):
+            return scontinue()
+        if x < 0.97:
+            return scall(call("func", "IdI64", [as_arg(emath(self.num(1)))]))
+        return self.assignment()
+
+    def blk(self, depth, in_loop, top=False):
+        r = self.rng
+        stmts = []
+        for _ in range(r.randint(0 if not top else 1, 3 if not top else 5)):
+            s = self.stmt(depth, in_loop)
+            stmts.append(s)
+            if s["s"] not in ("break", "continue"):
+                stmts.append(self.mk())
+        ret = None
+        p = 0.5 if top else 0.12
+        if r.random() < p:
+            ret = ("bare",) if r.random() < 0.25 else ("expr", emath(self.num(1)))
+        return block(stmts, ret)
